@@ -24,7 +24,7 @@ LEVEL_NOTE = ("C04_assign_partial / C04_reject_partial / C04_fsarray_partial car
               "C04_D19_witness and C04_D27_witness. Zero-area regions (r0 == r1 or c0 == c1) are OUTSIDE the statement's "
               "domain: no error is required there, only 'no cell changes' (C04_empty_region_noop, checked by the oracle). "
               "trusted: Lean kernel + propext/Classical.choice/Quot.sound, the hand-written models (FmtStr core, escape "
-              "parser, Operand, FSArray), extract.py, the wire codec; CPython is modelled not verified")
+              "parser, Operand, FSArray), extract.py, the wire codec; CPython is modelled not verified. Ties: property level = accepted/raised and the grid the cells show after every call, what reads show, for histories inside the quantifier (C04/histories); representation level = exception kinds, heights and stored rows after every call incl. rejected ones, and histories with out-of-quantifier operations (C04/histories-exact). Known-finding footprints are confirmed per call by probing the Lean model from the real rows before the call.")
 ASSUMPTIONS = ["plain str rows containing ESC '[' are IN the domain (the property lists 'lists of str/FmtStr' without exclusion): "
                "the code parses them and measures them raw (open finding D27); the theorems carry Operand.EscFree",
                "row subscripts are non-negative ints or slices with explicit non-negative bounds (a missing row stop makes "
@@ -212,6 +212,99 @@ def canon(reply):
     return tuple(out)
 
 
+def norm_grid(rows):
+    """what the cells show, heights and stored row lengths being representation: trailing blank cells of a row and trailing
+    blank rows are dropped (a missing cell and an unformatted space both show blank)"""
+    out = []
+    for r in rows:
+        r = list(r)
+        while r and r[-1] == BLANK:
+            r.pop()
+        out.append(tuple(r))
+    while out and not out[-1]:
+        out.pop()
+    return tuple(out)
+
+
+def canon_prop_tok(tok, op):
+    """one reply token at PROPERTY level: an assignment is ('ok' | 'raised', the grid afterwards) - the exception kind, the
+    height after a rejected call and stored trailing blanks are representation; on a region without cells (outside the
+    statement) only the grid counts; a read is the cells it shows (a row below the array shows blank)"""
+    if op is None:                              # final=<w>=<rows>
+        _, w, rows = tok.split("=", 2)
+        return ("final", int(w), norm_grid(canon_rows(rows)))
+    if "@" in tok:
+        st, rows = tok.split("@", 1)
+        g = norm_grid(canon_rows(rows))
+        reg = op.get("_reg")
+        if reg is not None and (reg[0] == reg[1] or reg[2] == reg[3]):
+            return ("empty-region", g)
+        return ("ok" if st == "ok" else "raised", g)
+    if tok.startswith("rows="):
+        return ("shows", norm_grid(canon_rows(tok[5:])))
+    if tok.startswith("row="):
+        return ("shows", norm_grid(canon_rows(tok[4:])))
+    if tok == "E:IndexError":
+        return ("shows", ())                    # a row / region below the array: nothing but blanks to show
+    return ("raised",)
+
+
+def in_statement_hist(c):
+    """every operation of the history is inside the statement's quantifier (explicit non-negative row bounds or ints,
+    0 <= c0 <= c1 <= width, no a[i] = row, a str value only for one-column regions)"""
+    W = c["nc"]
+    for op in c["ops"]:
+        o = op["o"]
+        if o == "I":
+            return False
+        if o in ("S", "T"):
+            if o == "T" and op["v"]["k"] == "str":
+                return False
+            reg = region_of(dict(op, o="S", c=("s", None, None)) if o == "T" else op, W)
+            if reg is None or (op["v"]["k"] == "str" and reg[3] - reg[2] > 1):
+                return False
+        elif o == "G":
+            if read_region(op, W) is None:
+                return False
+        else:
+            ix = op["i"]
+            if ix[0] == "i":
+                if ix[1] < 0:
+                    return False
+            elif (ix[1] is not None and ix[1] < 0) or (ix[2] is not None and ix[2] < 0):
+                return False
+    return True
+
+
+class PropCanon:
+    """canonicalisation that needs the request: ctx.tie calls impl_fn(case) and then the two canon functions for the same
+    case, in order - the wrapper remembers the case"""
+
+    def __init__(self):
+        self.c = None
+
+    def impl(self, c):
+        self.c = c
+        return impl(c)
+
+    def canon(self, reply):
+        c = self.c
+        if c["kind"] == "hist":
+            toks = reply.split(" ")
+            ops = []
+            for op in c["ops"]:
+                if op["o"] in ("S", "T"):
+                    op = dict(op, _reg=region_of(dict(op, o="S", c=("s", None, None)) if op["o"] == "T" else op, c["nc"]))
+                ops.append(op)
+            if len(toks) != len(ops) + 1:
+                return ("malformed", reply)
+            return tuple(canon_prop_tok(t, o) for t, o in zip(toks, ops + [None]))
+        if reply.startswith("ok "):
+            w, rows = reply[3:].split("=", 1)
+            return ("arr", int(w), norm_grid(canon_rows(rows)))
+        return ("raised",)
+
+
 # ---------------------------------------------------------------------------------------------------
 # the property, stated on per-cell grids of the real array
 # ---------------------------------------------------------------------------------------------------
@@ -224,6 +317,25 @@ def cell(g, r, c):
     if r < len(g) and c < len(g[r]):
         return g[r][c]
     return BLANK
+
+
+def read_region(op, W):
+    """the region a READ a[r, c] denotes: rows as for assignments (explicit non-negative bounds or a non-negative int);
+    columns in any Python spelling - None, negative and past-the-end bounds resolve against the array's WIDTH exactly as
+    list slicing does (a negative int column counts from the right edge)"""
+    reg = region_of(dict(op, c=("s", 0, 0)), W)
+    if reg is None:
+        return None
+    c = op["c"]
+    if c[0] == "i":
+        if not -W <= c[1] < W:
+            return None
+        c0 = c[1] % W
+        c1 = c0 + 1
+    else:
+        c0, c1, _ = slice(c[1], c[2]).indices(W)
+        c1 = max(c0, c1)
+    return reg[0], reg[1], c0, c1
 
 
 def region_of(op, W):
@@ -253,21 +365,52 @@ def has_esc(it):
     return it[0] == "s" and "\x1b[" in it[1]
 
 
-def check_assign(op, before, after, W, raised, model_agrees):
-    """-> list of (what, footprint). model_agrees: the real outcome and rows of this call (and of every earlier call of
-    the history) equal the Lean model's - the model, with its own parser and raw-length arithmetic, is the independent
-    statement of what finding D27 explains (never the tree's own fmtstr)."""
+class Probe:
+    """A footprint that holds only if the Lean model, started from the REAL rows before this call, gives the same outcome
+    class (accepted / raised) and the same grid after it (the model - own parser, raw-length arithmetic - is the
+    independent statement of what the known findings explain; exception kind, heights, run layout are representation).
+    Per call, not per history: an earlier divergence in something the property does not speak about cannot leak in."""
+
+    def __init__(self, request, real_tok, index):
+        self.request, self.real_tok, self.index = request, real_tok, index
+
+    def holds(self, model_reply):
+        try:
+            toks = model_reply.split(" ")
+            return canon_prop_tok(self.real_tok, {}) == canon_prop_tok(toks[self.index], {})
+        except Exception:  # noqa: BLE001
+            return False
+
+
+def check_assign(op, before, after, W, raised, probe):
+    """-> list of (what, footprint, probe): a footprint is provisional until its probe holds (resolve())"""
     out = check_assign0(op, before, after, W, raised)
     v = op["v"]
-    if not model_agrees:
-        # model and code disagree on this very call: judge it without any footprint
-        return [(w, None) for w, fp in out]
     if out and v["k"] == "list" and any(has_esc(it) for it in v["items"]):
         # D27 footprint: a plain-str row contains ESC '[', right row count, non-empty region, and the outcome is exactly
         # the model's (raw-length measuring plus parsing); everything else stays unlisted
         reg = region_of(dict(op, o="S", c=("s", None, None)) if op["o"] == "T" else op, W)
         if reg is not None and reg[0] < reg[1] and reg[2] < reg[3] and len(v["items"]) == reg[1] - reg[0]:
             out = [(w, "D27" if fp is None else fp) for w, fp in out]
+    return [(w, fp if probe is not None else None, probe if fp is not None else None) for w, fp in out]
+
+
+def resolve(ctx, results):
+    """results: list of (case, [(what, fp, probe)]) -> list of (case, [(what, fp)]): one driver run for all probes"""
+    probes = [pr for _, items in results for _, _, pr in items if pr is not None]
+    replies = {}
+    if probes:
+        reqs = sorted({pr.request for pr in probes})
+        try:
+            import lib
+            replies = dict(zip(reqs, lib.run_driver(reqs)))
+        except Exception as e:  # noqa: BLE001
+            if ctx is not None:
+                ctx.note("model probes unavailable, no call is attributed to a known finding: %r" % (e,))
+    out = []
+    for c, items in results:
+        out.append((c, [(w, fp if (pr is None or (pr.request in replies and pr.holds(replies[pr.request]))) else None)
+                        for w, fp, pr in items]))
     return out
 
 
@@ -370,7 +513,7 @@ def check_read(op, g, W, result):
         if got != want:
             out.append(("a[%s] returned %r, the rows show %r" % (enc_idx(ix), got, want), None))
         return out
-    reg = region_of(op, W)
+    reg = read_region(op, W)
     if reg is None:
         return out
     r0, r1, c0, c1 = reg
@@ -431,7 +574,17 @@ def oracle_aft(c):
 
 
 def oracle(c, model_reply=None):
-    """-> list of (what, footprint); model_reply: the Lean model's reply to the same request (None: unavailable, then no
+    """-> list of (what, footprint, probe) - footprints with a probe are provisional, see resolve()"""
+    return [(t + (None,))[:3] for t in oracle_raw(c, model_reply)]
+
+
+def judged(ctx, c, model_reply=None):
+    """the oracle's findings on one case with every provisional footprint resolved -> list of (what, footprint)"""
+    return resolve(ctx, [(c, oracle(c, model_reply))])[0][1]
+
+
+def oracle_raw(c, model_reply=None):
+    """-> list of (what, footprint[, probe]); model_reply: the Lean model's reply to the same request (None: unavailable, then no
     case is attributed to a finding that needs it)"""
     out = []
     if c["kind"] == "aft":
@@ -462,7 +615,8 @@ def oracle(c, model_reply=None):
             fp = None
             if any(has_esc(it) for it in c["strings"]) and shape == ((len(want), w), w, len(want)) and model_reply is not None:
                 # D27: width from the raw lengths, rows show the PARSED strs - as the Lean model (own parser) returns them
-                if canon("ok %d=%s" % (a.num_columns, enc_rows(a.rows))) == canon(model_reply):
+                if model_reply.startswith("ok ") and (a.num_columns, norm_grid(rows)) == (
+                        int(model_reply[3:].split("=", 1)[0]), norm_grid(canon_rows(model_reply[3:].split("=", 1)[1]))):
                     fp = "D27"
             out.append(("fsarray: shape %r rows %r, expected %r rows showing %r" % (shape[0], rows, (len(want), w), want), fp))
         return out
@@ -470,11 +624,14 @@ def oracle(c, model_reply=None):
     W = c["nc"]
     if a.shape != (c["nr"], W) or any(len(r) for r in a.rows):
         out.append(("FSArray(%d,%d) is not a blank %dx%d array" % (c["nr"], W, c["nr"], W), None))
-    model_toks = model_reply.split(" ") if model_reply else None
-    agrees = model_toks is not None and len(model_toks) == len(c["ops"]) + 1
     for k, op in enumerate(c["ops"]):
         before = snapshot(a)
         if op["o"] in ("S", "T", "I"):
+            try:        # the request that puts the model into the real state before this call: a[i] = row for every row
+                pre = ["I/%d/%s" % (ri, wire.enc_fmt(row)) for ri, row in enumerate(a.rows)]
+                request = " ".join(["fsa", str(len(a.rows)), str(W), "A" + wire.enc_atts(ctor_atts(c["fa"]))] + pre + [enc_op(op)])
+            except Exception:  # noqa: BLE001
+                pre, request = None, None
             try:    # observing the array after the call must not raise either
                 tok = apply_op(a, op)
                 after = snapshot(a)
@@ -490,9 +647,9 @@ def oracle(c, model_reply=None):
                 continue
             if raised and len(after) != len(before):
                 HEIGHT_AFTER_RAISE[(len(before), len(after))] += 1     # informational (C04_height), not a violation
-            agrees = agrees and canon(tok) == canon(model_toks[k])
-            for what, fp in check_assign(op, before, after, W, raised, agrees):
-                out.append(("op %d %s: %s" % (k, enc_op(op)[:60], what), fp))
+            probe = Probe(request, tok, len(pre)) if request is not None else None
+            for what, fp, pr in check_assign(op, before, after, W, raised, probe):
+                out.append(("op %d %s: %s" % (k, enc_op(op)[:60], what), fp, pr))
             if raised == "E:TypeError":
                 RAISED_TYPEERROR[0] += 1
         else:
@@ -593,6 +750,15 @@ def mk_cases(ctx):
                                   ops=wide_pre + [dict(o="S", r=("s", r0, r1), c=("s", c0, c1), v=dict(k="list", items=items)),
                                                   dict(o="G", r=("s", 0, 3), c=("s", 0, 3))]))
                 n0 += 1
+    # reads with every spelling of the column bounds (None, negative, past the end) on rows shorter than the width
+    for (l0, l1) in ((1, 3), (3, 2), (2, 0)):
+        bounds = [None] + list(range(-4, 5))
+        for b0, b1 in itertools.product(bounds, bounds):
+            cases.append(dict(kind="hist", nr=2, nc=3, fa=0, ops=[init_op(l0, l1), dict(o="G", r=("s", 0, 3), c=("s", b0, b1))]))
+            n0 += 1
+        for ci in range(-4, 4):
+            cases.append(dict(kind="hist", nr=2, nc=3, fa=0, ops=[init_op(l0, l1), dict(o="G", r=("i", 0), c=("i", ci))]))
+            n0 += 1
     ctx.exhaustive.append("single assignments on a 2x3 array, 4 initial contents x all regions x block-row lengths 0..4, wrong "
                           "row counts, int subscripts, FSArray blocks: %d cases" % n0)
     r = ctx.rng
@@ -653,7 +819,8 @@ def mk_cases(ctx):
                 c0 = r.randint(0, nc)
                 c1 = r.randint(c0, nc)
                 ridx = ("i", r0) if r.random() < 0.25 else ("s", r0, r1)
-                cidx = ("i", r.randint(0, nc)) if r.random() < 0.2 else r.choice([("s", c0, c1), ("s", None, c1), ("s", c0, None), ("s", -1, None)])
+                cidx = ("i", r.randint(0, nc)) if r.random() < 0.2 else r.choice([("s", c0, c1), ("s", None, c1), ("s", c0, None), ("s", -1, None), ("s", None, -1), ("s", -2, -1),
+                                                                                ("s", -nc - 1, None), ("s", None, -nc), ("s", -3, nc + 1)])
                 ops.append(dict(o="G", r=ridx, c=cidx))
             else:
                 ops.append(dict(o="R", i=r.choice([("i", r.randint(-1, h + 1)), ("s", r.randint(0, h), r.randint(0, h + 1)), ("s", None, None),
@@ -730,11 +897,20 @@ def model_replies(ctx, cases):
 
 def check(ctx):
     cases = mk_cases(ctx)
-    replies = ctx.tie("C04/histories", cases, line, impl, canon, canon)
+    # property level: accepted / raised and the grid the cells show after every call, what reads show - inside the quantifier
+    inside = [c for c in cases if c["kind"] != "hist" or in_statement_hist(c)]
+    pc = PropCanon()
+    ctx.tie("C04/histories", inside, line, pc.impl, pc.canon, pc.canon)
+    # representation level: exception kinds, the rows (heights, stored lengths) after every call incl. rejected ones, and the
+    # histories with operations outside the quantifier (a[i] = row, columns beyond the width, negative subscripts, ...)
+    replies = ctx.tie("C04/histories-exact", cases, line, impl, canon, canon, level="representation")
     model = model_replies(ctx, cases)
+    results = []
     for c, rep, mrep in zip(cases, replies, model):
         ctx.count(c, nontrivial=nontrivial(c, rep), tag=tag(c))
-        for what, fp in oracle(c, mrep):
+        results.append((c, oracle(c, mrep)))
+    for c, items in resolve(ctx, results):
+        for what, fp in items:
             ctx.violation(what, c, fp)
     ctx.note("observation: a block with the wrong number of rows always raises TypeError, not the intended ValueError - the "
              "message construction crashes (\"\".join(value) on FmtStr items / \"\\n \".join(<FmtStr rows>)); the "
@@ -755,9 +931,12 @@ def search(ctx):
         return
     ctx.thorough = True
     cases = mk_cases(ctx)
+    results = []
     for c, mrep in zip(cases, model_replies(ctx, cases)):
         ctx.count(c, tag="search")
-        for what, fp in oracle(c, mrep):
+        results.append((c, oracle(c, mrep)))
+    for c, items in resolve(ctx, results):
+        for what, fp in items:
             ctx.violation(what, c, fp)
         if len([v for v in ctx.violations if v["footprint"] is None]) > 50:
             return
@@ -793,4 +972,4 @@ def replay(payload):
                 op["f"] = [tuple(ch) for ch in op["f"]]
     elif c["kind"] == "fsarray":
         c["strings"] = [fix_item(it) for it in c["strings"]]
-    return dict(case=c, implementation=impl(c), oracle=oracle(c))
+    return dict(case=c, implementation=impl(c), oracle=judged(None, c))
